@@ -54,4 +54,4 @@ def veto_supported_le_m(case, fail):
 
 
 def is_alaska(case, fail):
-    return case.get("rule") == "Alaska"
+    return case.get("rule") == "Alaska" or case.get("comp") == "Alaska"
